@@ -129,7 +129,7 @@ func c18Exec(run *ev.Run, c ev.Case) {
 	prevKind := "start"
 	var trace []string
 	for step := 0; step < h.Steps; step++ {
-		kinds := []string{"dial-ok", "dial-bad", "open-ok", "open-wrongpw", "open-nosuite", "open-garbage", "open-unimplemented", "sl-ok", "sl-busy-ok", "sl-lost-ok", "sl-cc", "sl-ctx-done", "sl-any", "sl-any", "sl-stray-ok", "dial-odd-timeout", "sl-busy-giveup"}
+		kinds := []string{"dial-ok", "dial-bad", "open-ok", "open-wrongpw", "open-nosuite", "open-garbage", "open-unimplemented", "sl-ok", "sl-busy-ok", "sl-lost-ok", "sl-cc", "sl-ctx-done", "sl-any", "sl-any", "sl-stray-ok", "dial-odd-timeout", "sl-busy-giveup", "open-cancelled-late"}
 		if len(conns) > 0 {
 			kinds = append(kinds, "conn-close")
 		}
@@ -282,7 +282,8 @@ func c18Exec(run *ev.Run, c ev.Case) {
 					}
 				}
 			case "dial-bad":
-				_, err := bmc.DialV2([]string{"127.0.0.1:99999", "127.0.0.1:-1", "127.0.0.1:70000"}[r.Intn(3)])
+				// bad ports, and IPv6 literals without the brackets the address syntax requires
+				_, err := bmc.DialV2([]string{"127.0.0.1:99999", "127.0.0.1:-1", "127.0.0.1:70000", "::1", "2001:db8::10", "fe80::1", "[::1", "::1]:623"}[r.Intn(8)])
 				model.add("bmc_connection_open_attempts_total", "version=2.0", 1)
 				if err != nil {
 					model.add("bmc_connection_open_failures_total", "version=2.0", 1)
@@ -295,7 +296,7 @@ func c18Exec(run *ev.Run, c ev.Case) {
 				conns[i].srv.Close()
 				conns = append(conns[:i], conns[i+1:]...)
 				model.add("bmc_connections_open", "version=2.0", -1)
-			case "open-ok", "open-wrongpw", "open-nosuite", "open-garbage", "open-unimplemented":
+			case "open-ok", "open-wrongpw", "open-nosuite", "open-garbage", "open-unimplemented", "open-cancelled-late":
 				opts := &bmc.V2SessionOpts{SessionOpts: bmc.SessionOpts{Username: cfg.Username, Password: cfg.Password, MaxPrivilegeLevel: ipmi.PrivilegeLevelAdministrator}, CipherSuites: []ipmi.CipherSuite{libSuite(su)}}
 				switch kind {
 				case "open-wrongpw":
@@ -318,6 +319,17 @@ func c18Exec(run *ev.Run, c ev.Case) {
 					}
 				}
 				ctx, cancel := se.LimitCtx(8)
+				if kind == "open-cancelled-late" {
+					// the caller gives up while the last handshake exchange is in flight; the BMC's
+					// (valid) RAKP Message 4 still arrives. Whether that open counts as made or as
+					// failed is the library's choice - the counters have to agree with its answer.
+					se.Filter2 = func(req, reply []byte) []byte {
+						if len(req) > 5 && req[5]&0x3f == 0x14 {
+							cancel()
+						}
+						return reply
+					}
+				}
 				s, err := se.ST.NewV2Session(ctx, opts)
 				cancel()
 				se.Filter2 = nil
@@ -328,7 +340,7 @@ func c18Exec(run *ev.Run, c ev.Case) {
 					model.add("bmc_sessions_open", "", 1)
 					sess = s
 				}
-				if (kind == "open-ok") != (err == nil) {
+				if kind != "open-cancelled-late" && (kind == "open-ok") != (err == nil) {
 					run.Violation("C18:harness-open", fmt.Sprintf("step %s: err=%v", kind, err), cs, nil)
 				}
 			case "sl-deadline-in-backoff", "cmd-deadline-in-backoff":
